@@ -9,7 +9,7 @@
    earliest instant [tau c s] at which anything can happen (time never passes an enabled case:
    that is what testing/synctest's virtual clock does, and what the harness checks).
    Definitions only; proofs are in Proofs/LazyProofs.v. *)
-From Coq Require Import ZArith List Bool.
+From Coq Require Import ZArith NArith List Bool.
 Import ListNotations.
 Open Scope Z_scope.
 
@@ -189,3 +189,82 @@ Definition armed (i first : Z) (l : list (Z * Z)) : Z :=
 
 (* guard of C17_rate_partial *)
 Definition rate_guard (c : cfg) : bool := negb (c_lazy c) || (eff_bt c <=? eff_li c).
+
+(* ---- the reaper (block/reaper.go): the producer of the notifications ------------------------ *)
+
+(* One call of Reaper.SubmitTxs (reaper.go:72-129).  The environment's answers are inputs:
+   [ri_get] = what exec.GetTxs returns (None = error), transactions named by ids (the code keys them by
+   sha256 of their bytes, reaper.go:131); [ri_ok] = sequencer.SubmitBatchTxs accepts the batch (only
+   consulted when there is something new to hand over).  The seen-store (reaper.go:87, 117) is a
+   set of ids; its own I/O errors are not modelled.  The manager is connected (node/full.go:132). *)
+Record rin := { ri_get : option (list N); ri_ok : bool }.
+
+(* what one call does: [ro_call] = the batch handed to the sequencer (None = SubmitBatchTxs is not
+   called), [ro_acc] = the sequencer accepted it, [ro_notify] = Manager.NotifyNewTransactions is called *)
+Record rout := { ro_call : option (list N); ro_acc : bool; ro_notify : bool }.
+
+(* reaper.go:79-96: the transactions that are neither in the seen-store nor listed earlier in the
+   same answer ([inBatch]), in the executor's order *)
+Fixpoint fresh (seen : list N) (txs : list N) : list N :=
+  match txs with
+  | [] => []
+  | x :: r => if existsb (N.eqb x) seen then fresh seen r else x :: fresh (x :: seen) r
+  end.
+
+Definition nonempty {A} (l : list A) : bool := match l with [] => false | _ => true end.
+
+Definition rquiet : rout := {| ro_call := None; ro_acc := false; ro_notify := false |}.
+
+(* returns the new seen-set and what the call did *)
+Definition rstep (seen : list N) (i : rin) : list N * rout :=
+  match ri_get i with
+  | None => (seen, rquiet)                                   (* reaper.go:73-77 *)
+  | Some txs =>
+      let new := fresh seen txs in
+      if nonempty new then
+        if ri_ok i
+        then (new ++ seen,                                   (* reaper.go:114-120 *)
+              {| ro_call := Some new; ro_acc := true;
+                 ro_notify := nonempty new |})               (* reaper.go:123-126 *)
+        else (seen, {| ro_call := Some new; ro_acc := false; ro_notify := false |})  (* 109-112 *)
+      else (seen, rquiet)                                    (* reaper.go:98-101 *)
+  end.
+
+(* a history of calls of SubmitTxs: (instant, the environment's answers), in the order they happen *)
+Fixpoint rrun (seen : list N) (evs : list (Z * rin)) : list (Z * rout) :=
+  match evs with
+  | [] => []
+  | (t, i) :: r => let '(seen', o) := rstep seen i in (t, o) :: rrun seen' r
+  end.
+
+(* the calls of SubmitBatchTxs: (instant, (batch, accepted)) *)
+Definition rcalls (evs : list (Z * rin)) : list (Z * (list N * bool)) :=
+  flat_map (fun to => match ro_call (snd to) with
+                      | Some b => [(fst to, (b, ro_acc (snd to)))]
+                      | None => [] end) (rrun [] evs).
+
+(* the batches the sequencer accepted: (instant, batch) = the transactions handed to the sequencer *)
+Definition rsubs (evs : list (Z * rin)) : list (Z * list N) :=
+  flat_map (fun to => match ro_call (snd to) with
+                      | Some b => if ro_acc (snd to) then [(fst to, b)] else []
+                      | None => [] end) (rrun [] evs).
+
+(* the instants at which the reaper calls NotifyNewTransactions *)
+Definition rnotifs (evs : list (Z * rin)) : list Z :=
+  flat_map (fun to => if ro_notify (snd to) then [fst to] else []) (rrun [] evs).
+
+(* the bound within which a notification must be answered: one block interval (1 ms floor of
+   getRemainingSleep for block times below 1 ms) *)
+Definition resp (c : cfg) : Z := Z.max (eff_bt c) ms.
+
+(* a notification instant [x] is answered in state [s]: either (once time has passed x + one block
+   interval) a production started in [x, x + block interval], or x fell strictly inside a production
+   (t, t+d] and (once time has passed the block timer that production re-armed) a FURTHER production
+   started after its end and no later than that timer.  Instants before the loop's first select count
+   from that select ([t0 c]). *)
+Definition answered (c : cfg) (x : Z) (s : st) : Prop :=
+  let x' := Z.max x (t0 c) in
+  (x' + resp c < now s -> exists p, In p (prods s) /\ x' <= fst p /\ fst p <= x' + resp c)
+  \/ (exists t d, In (t, d) (prods s) /\ t < x' /\ x' <= t + d /\
+        (next_fire (eff_bt c) (t, d) < now s ->
+         exists p, In p (prods s) /\ t + d < fst p /\ fst p <= next_fire (eff_bt c) (t, d))).
